@@ -35,7 +35,7 @@ pub fn def() -> PropDef {
         check,
         genome_len: 1500,
         quick_cases: 16_000,
-        thorough_cases: 1_000_000,
+        thorough_cases: 400_000,
         rule: "case = byte program of 1..6 operations for a universal interpreter over the public API (Fr/Fq/Fq2 arithmetic on limb-boundary operands, all conversions on byte strings of every length / digit strings / bit indices / RNG streams, all six decoders on the malformed-input classes of C08, validated affine construction on twist / small-order / near-miss points, G1/G2 group operations over all representations incl. identities, encoders, the three pairing entry points, Gt operations, and the internal tower routines through the hooks); the transcript (raw coordinates, canonical bytes, flags, Ok/Err, caught panic messages) produced by the release build is compared byte for byte with the transcript of a dbg-profile child (debug assertions + integer overflow checks); any 'attempt to .. overflow' / 'assertion failed' panic is reported even if both sides show it; non-trivial = program contains a malformed decoder/converter input or a boundary-class operand; distinct by program",
         required,
         enumerate: None,
